@@ -1,5 +1,5 @@
 """C04 - base height = configured percentile, inside the layer, never coded upward (structural part)."""
-from sa.rules import baseheight, wmo, metarize, rounding
+from sa.rules import baseheight, wmo, metarize, rounding, params
 
 LEVEL = 'other'
 
@@ -13,6 +13,9 @@ def check(ctx):
     metarize.sorted_before_significance(ctx, 'C04-R6')
     baseheight.fluffiness_sign(ctx, 'C04-R7')
     rounding.lookback_rounding(ctx, 'C04-R8')
+    # R9: the percentile, look-back and exclusion list asked for per call are the ones used (= C12-R2: every value of a
+    # known key is taken over, an empty list included)
+    params.merge_routine(ctx, 'C04-R9')
     ctx.undecided += ['numerical equality with the percentile; finiteness of the LOWESS output',
                       'flooring within one ulp of a x00 ft boundary (exact-real model)',
                       'that np.percentile of a non-empty selection lies between its minimum and maximum (A1)']
